@@ -475,7 +475,30 @@ def run(ck, F, tier):
                               and any(i in atom_args(single_atom(g)) for i in idxs) and "min_by" in repr(g)]
                         folds.append(bool(ex))
                 amin = [n for n in walk(body.value) if n.get("k") == "mcall" and n["m"] in ("min_by", "min_by_key")]
-                abs_ok = len(amin) == 1 and any(x.get("k") == "mcall" and x["m"] == "abs" for x in walk(amin[0]["args"][0]))
+                # the least reliable input is chosen by magnitude: the comparator orders |key(a)| against |key(b)| with the same key on both
+                # sides (min_by), or the key function is |key(m)| (min_by_key); read by applying the closure to symbolic elements
+                abs_ok = False
+                if len(amin) == 1:
+                    clo_ = strip(amin[0]["args"][0])
+                    cenv_ = dict(getattr(tr_, "closure_envs", {}).get(clo_.get("def"), {})) if clo_.get("k") == "closure" else {}
+                    try:
+                        if clo_.get("k") != "closure":
+                            cv_ = None
+                        elif amin[0]["m"] == "min_by":
+                            cv_ = tr_.apply(("closure", clo_, cenv_), [("tuple", [var("j1"), var("m1")]), ("tuple", [var("j2"), var("m2")])])
+                        else:
+                            cv_ = tr_.apply(("closure", clo_, cenv_), [("tuple", [var("j1"), var("m1")])])
+                    except Unsupported:
+                        cv_ = None
+                    ca_ = single_atom(cv_) if isinstance(cv_, Poly) else None
+                    while ca_ is not None and atom_fn(ca_).endswith(("::unwrap", "::expect")):
+                        ca_ = single_atom(atom_args(ca_)[0]) if isinstance(atom_args(ca_)[0], Poly) else None
+                    key_of = lambda m_: (var(m_ + ".value") if tag == "flooding" else var(m_))
+                    from ..symx import num_call
+                    if ca_ is not None and amin[0]["m"] == "min_by" and atom_fn(ca_).rsplit("::", 1)[-1] in ("partial_cmp", "cmp", "total_cmp"):
+                        abs_ok = list(atom_args(ca_)) == [num_call("abs", key_of("m1")), num_call("abs", key_of("m2"))]
+                    elif ca_ is not None and amin[0]["m"] == "min_by_key":
+                        abs_ok = Poly.atom(ca_) == num_call("abs", key_of("m1"))
                 ck.inst("K2", "%s:%s" % (ty, tag), bool(folds) and all(folds) and abs_ok, body.span,
                         "the box-plus fold skips exactly the least reliable element (%d fold update(s), all under index != argmin: %s), argmin by |value| (%s)" % (
                             len(folds), bool(folds) and all(folds), abs_ok))
